@@ -20,7 +20,7 @@ It is quantified over: {p['quantifier']['text']}
 YOUR TASK: make ONE realistic change to the non-test source code (a slip a maintainer could plausibly make while refactoring, optimising or adding a small feature) that BREAKS this property while
  (a) the project still compiles (go build ./... and go vet ./... are clean),
  (b) the existing test suite passes unedited: go test ./... (run it to be sure),
- (c) the breakage is a genuine violation of the property as stated, on valid input, and is HARD TO FIND. Assume a systematic tester that already: tries every small program, every short token sequence and every pair of features; scales each construct up (every statement kind repeated or nested up to 40 times, switches up to 100 cases, long texts, long argument lists, long tables, every movement multiplier, positions beyond line / column 65536); and re-runs every control-flow shape wrapped in poryswitch cases, with operands written as constants, with line markers on, on a single line, one token per line and with comments everywhere. Aim at what that tester would STILL miss: a specific VALUE or SPELLING (a particular name, number, escape, Unicode class), a specific combination of THREE or more different features, a dependence on options (optimize, line markers, font config contents, command config, compile switches, default font / line length), on the ORDER of top-level statements, on what an EARLIER statement or compilation left behind, or on an error path.
+ (c) the breakage is a genuine violation of the property as stated, on valid input, and is HARD TO FIND. Assume a systematic tester that already: tries every small program, every short token sequence and every pair of features; scales each construct up (every statement kind repeated or nested up to 40 times, switches up to 100 cases, long texts, long argument lists, long tables, every movement multiplier, every integer up to 70000 at every numeric position, positions beyond line / column 65536); compiles mass files (100,000 scripts, 260,000 different moves() lists) so that any 32-bit hash key collides; re-runs every control-flow shape wrapped in poryswitch cases, with operands written as constants or as expressions with + and %, with line markers on, on a single line, one token per line, with all optional white space removed and with comments everywhere; uses every string and rune literal that occurs in the compiler's own source (so any sentinel you compare against is in its dictionary) as command name, argument, constant name and value, text content, step, item, label and case label; uses one character of every Unicode category; and uses spellings that collide when joined without separator. Aim at what that tester would STILL miss: a dependence on OPTIONS or configuration contents (font config values, command config, compile switches, default font / line length, optimize x line markers), on the ORDER or NUMBER of top-level statements of different kinds, on what an EARLIER statement left behind in parser or emitter state, a combination of THREE or more different features none of which is rare by itself, an arithmetic boundary computed from two inputs (a width sum, an index derived from two counts), or behaviour on an ERROR path (wrong line, wrong message position, error swallowed).
 Earlier colleagues already produced the following changes for this property; yours must use a DIFFERENT mechanism, in a different function, and need a different kind of input from all of them:
 {prevtxt}
 Then write a DEMONSTRATION: a new Go test file inside the worktree (for example emitter/seeded_demo_test.go, using the public API lexer.New / parser.New / emitter.New the way the existing tests do; the test function name must contain 'Seeded') that FAILS with your change and PASSES on the original code. Verify both directions yourself.
